@@ -651,7 +651,9 @@ namespace awkward {
     }
     return std::make_shared<UnmaskedArray>(identities,
                                            parameters_,
-                                           content_.get()->carry(carry, allow_lazy));
+                                           // an option-type node must not directly contain
+                                           // the IndexedArray of a lazy carry
+                                           content_.get()->carry(carry, false));
   }
 
   int64_t
